@@ -40,6 +40,7 @@ fn main() {
         "C10" => verif_harness::props::c10::run(&cfg),
         "C11" => verif_harness::props::c11::run(&cfg),
         "C12" => verif_harness::props::c12::run(&cfg),
+        "C19" => verif_harness::props::c19::run(&cfg),
         "STRUCT" => verif_harness::props::structs::run_model(&cfg),
         _ => {
             eprintln!("unknown property {prop}");
